@@ -360,3 +360,85 @@ def putImported (arecs : AddrRecs Addr) (id : String) (m : Mgr Pub Addr) : AddrR
 
 end
 end MW.Model.Keystore
+
+/-
+  The multi-instance system C04 quantifies over: several independent wallet databases ("instances"),
+  keystore files travelling between them, and every operation that touches identity or addresses.
+-/
+namespace MW.Model.Keystore
+open MW
+section
+variable {Priv Pub Addr : Type} [DecidableEq Addr] (sch : Scheme Priv Pub Addr)
+
+/-- one wallet installation: keystore manager over its database, its node's usage index, its settings -/
+structure Inst (Priv Pub Addr : Type) where
+  ks : KS Priv Pub Addr := {}
+  used : Addr → Bool := fun _ => false
+  gap : Nat := 20
+  coin : Nat := 0               -- the network (HD coin type)
+
+inductive Op (Addr : Type)
+  | boot (i : Nat) (coin : Nat) (pubPass : String)         -- a fresh installation
+  | create (i : Nat) (mn pass : String)                    -- CreateWallet (mn = the fresh entropy)
+  | use (i : Nat) (id : String)                            -- UseWallet
+  | newAddr (i : Nat)                                      -- NewAddress on the wallet in use
+  | export (i : Nat) (id pass : String)                    -- ExportWallet → a new keystore file
+  | importKs (i : Nat) (file : Nat) (pass : String)        -- ImportWallet(file)
+  | importMn (i : Nat) (mn pass : String) (hintEx hintIn : Nat)   -- ImportWalletWithMnemonic
+  | restart (i : Nat) (pubPass : String)                   -- process restart
+  | chPub (i : Nat) (old new : String)                     -- ChangePubPassphrase
+  | chain (i : Nat) (u : Addr → Bool)                      -- the node's chain changed
+  | setGap (i : Nat) (g : Nat)
+  | loadPriv (i : Nat) (id pass : String)
+  | clearPriv (i : Nat)
+
+structure Sys (Priv Pub Addr : Type) where
+  insts : AMap.T Nat (Inst Priv Pub Addr) := []
+  files : List Json := []
+  fuel : Nat := 0
+
+def Sys.onInst (s : Sys Priv Pub Addr) (i : Nat) (f : Inst Priv Pub Addr → Inst Priv Pub Addr) : Sys Priv Pub Addr :=
+  match AMap.get s.insts i with
+  | some x => { s with insts := AMap.put s.insts i (f x) }
+  | none => s
+
+def Sys.step (s : Sys Priv Pub Addr) : Op Addr → Sys Priv Pub Addr
+  | .boot i coin pp =>
+    if (AMap.get s.insts i).isSome then s
+    else { s with insts := AMap.put s.insts i { ks := { pubPass := pp }, coin := coin } }
+  | .create i mn pass => s.onInst i (fun x =>
+      match newKeystore sch x.ks mn pass x.coin x.gap with
+      | .ok (ks', _) => { x with ks := ks' } | .error _ => x)
+  | .use i id => s.onInst i (fun x =>
+      match useKeystore x.ks id with | .ok ks' => { x with ks := ks' } | .error _ => x)
+  | .newAddr i => s.onInst i (fun x =>
+      match ksNextAddresses sch x.ks x.used false 1 x.gap with
+      | .ok (ks', _) => { x with ks := ks' } | .error _ => x)
+  | .export i id pass =>
+    match AMap.get s.insts i with
+    | some x => match exportKeystore x.ks id pass with
+      | .ok j => { s with files := s.files ++ [j] } | .error _ => s
+    | none => s
+  | .importKs i file pass =>
+    match s.files[file]? with
+    | some j => s.onInst i (fun x =>
+        match importKeystore sch x.ks j pass x.coin x.used x.gap s.fuel with
+        | .ok (ks', _) => { x with ks := ks' } | .error _ => x)
+    | none => s
+  | .importMn i mn pass he hi => s.onInst i (fun x =>
+      match importMnemonic sch x.ks mn pass x.coin he hi x.used x.gap s.fuel with
+      | .ok (ks', _) => { x with ks := ks' } | .error _ => x)
+  | .restart i pp => s.onInst i (fun x =>
+      match openKS sch x.ks.recs pp with | .ok ks' => { x with ks := ks' } | .error _ => x)
+  | .chPub i old new => s.onInst i (fun x =>
+      match changePubPass x.ks old new with | .ok ks' => { x with ks := ks' } | .error _ => x)
+  | .chain i u => s.onInst i (fun x => { x with used := u })
+  | .setGap i g => s.onInst i (fun x => { x with gap := g })
+  | .loadPriv i id pass => s.onInst i (fun x =>
+      match loadPriv x.ks id pass with | .ok ks' => { x with ks := ks' } | .error _ => x)
+  | .clearPriv i => s.onInst i (fun x => { x with ks := clearPriv x.ks })
+
+def Sys.run (s : Sys Priv Pub Addr) (ops : List (Op Addr)) : Sys Priv Pub Addr := ops.foldl (Sys.step sch) s
+
+end
+end MW.Model.Keystore
